@@ -180,6 +180,14 @@ func nets(c *vf.Ctx) []chain.NetSpec {
 			s.Maturity, s.Allow, s.Require, s.FinalCut = m, pl[0], pl[1], pl[1]+2
 			out = append(out, s)
 		}
+		if m == 2 {
+			// one configuration whose ephemeral-output height lies ABOVE the allow height (as on the networks that
+			// activated v2 before that rule existed): the in-block parent rules are probed on both sides of it
+			s := chain.Spec("mixed")
+			s.Name = "mixed(m=2,allow=2,require=7,ephemeral=5)"
+			s.Maturity, s.Allow, s.Require, s.FinalCut, s.Ephemeral = m, 2, 7, 9, 5
+			out = append(out, s)
+		}
 		s := chain.Spec("v1-eras")
 		s.Name = fmt.Sprintf("v1-eras(m=%d)", m)
 		s.Maturity = m
@@ -575,16 +583,19 @@ func (r *runner) maturity() {
 						u := w.UseV2SC(eph, 1)
 						u.Before = before
 						r.probe(w, kind+" spent in the block that creates it (v2 spender)", h, int64(se.MaturityHeight), u, want)
-						if !want && h >= r.spec.Ephemeral {
-							// the same with a claimed maturity height of 0 (from the ephemeral-output height on the claimed
-							// parent must equal the created one; below it the legacy rule does not compare - not asserted)
+						if !want {
+							// the same with a claimed maturity height of 0. From the ephemeral-output height on the claimed
+							// parent must equal the created one; below it the legacy rule compares nothing - the probe has its
+							// own rule name there (a recorded known finding)
 							lie := eph.Copy()
 							lie.MaturityHeight = 0
 							u2 := w.UseV2SC(lie, 2)
 							u2.Before = before
-							r.probe(w, "delayed output spent in the block that creates it under a claimed maturity of 0 (v2 spender)", h, int64(se.MaturityHeight), u2, false)
-						} else if !want {
-							r.c.Count("legacy_claimed_maturity_not_asserted", 1)
+							rule := "delayed output spent in the block that creates it under a claimed maturity of 0 (v2 spender)"
+							if h < r.spec.Ephemeral {
+								rule += ", below the ephemeral-output height (legacy rule)"
+							}
+							r.probe(w, rule, h, int64(se.MaturityHeight), u2, false)
 						}
 					}
 				}
